@@ -53,3 +53,14 @@ Definition ex_commands : list command :=
 Lemma example_commands : wf_commands ex_commands = true /\ length ex_commands = 4%nat /\
   forallb wf_command ex_commands = true /\ len (verification_trailer_pack ex_commands) = 87.
 Proof. split; [vm_compute; reflexivity|]. split; [reflexivity|]. split; vm_compute; reflexivity. Qed.
+
+(* C12: an ept_map request with an object UUID, the five-floor TCP/IP tower plus an unknown floor, an entry handle *)
+Definition ex_ept_map : ept_map :=
+  {| em_obj := Some ex_uuid;
+     em_tower := build_tcpip_tower (ex_syntax 1) (ex_syntax 2) 135 0 ++
+                 [ {| fl_kind := FK_Generic; fl_protocol := 255; fl_lhs := [1; 2; 3]; fl_rhs := [9] |} ];
+     em_entry_handle := Some (1, ex_uuid); em_max_towers := 4 |}.
+Lemma example_ept_map : wf_ept_map ex_ept_map = true /\ in_range 4 (len (tower_bytes (em_tower ex_ept_map))) = true
+  /\ length (em_tower ex_ept_map) = 6%nat /\ len (ept_map_pack ex_ept_map) = 152
+  /\ wf_ept_map {| em_obj := None; em_tower := []; em_entry_handle := None; em_max_towers := 0 |} = true.
+Proof. split; [vm_compute; reflexivity|]. split; [vm_compute; reflexivity|]. split; [reflexivity|]. split; vm_compute; reflexivity. Qed.
